@@ -171,6 +171,24 @@ pub fn gen_train_case(rng: &mut Rng, lo: u8, hi: u8, class: CorpusClass, with_ta
             }
         }
     }
+    // rare: a dictionary word whose length crosses a multiple of 256, occurring in one long sentence
+    if !corpus.is_empty() && rng.chance(1, 40) {
+        let len = *rng.pick(&[255usize, 256, 257, 258, 259, 260, 513]);
+        let word = text::text_from(rng, &alpha, len);
+        let mut chars = text::text_from(rng, &alpha, 3);
+        let start = chars.len();
+        chars.extend(&word);
+        chars.extend(text::text_from(rng, &alpha, 3));
+        let n = chars.len();
+        let mut labels = vec![0u8; n - 1];
+        labels[start - 1] = 1;
+        labels[start + len - 1] = 1;
+        corpus.push(RefSentence { chars, labels, tags: vec![vec![]; n] });
+        let w: String = word.iter().collect();
+        if !dict.contains(&w) {
+            dict.push(w);
+        }
+    }
     // tag dictionary: one entry per token, some tokens not in the corpus
     let mut tag_dict = vec![];
     if n_tags > 0 && rng.chance(1, 2) {
@@ -544,6 +562,36 @@ pub fn run_c11(ctx: &mut Ctx, from: u64, to: u64) {
         let tags = rng.chance(2, 3);
         let mut tc = gen_train_case(&mut rng, 0, 4, class, tags);
         tc.solver = ((k / CLASSES.len() as u64) % 8) as usize;
+        if k % 9 == 4 {
+            // windows beyond the score padding (8 and more)
+            if rng.chance(1, 2) {
+                tc.cfg.char_w = rng.urange(5, 16) as u8;
+            }
+            if rng.chance(1, 2) {
+                tc.cfg.type_w = rng.urange(5, 16) as u8;
+            }
+        }
+        ctx.flag("configs_with_window_of_8_or_more", tc.cfg.char_w >= 8 || tc.cfg.type_w >= 8);
+        if k == 0 {
+            // one large dictionary: the trained model decodes to more than 16 MiB of containers
+            let alpha: Vec<char> = (0..60).map(|i| char::from_u32(0x4E00 + i).unwrap()).collect();
+            tc.cfg.dict = (0..60_000usize)
+                .map(|i| {
+                    let mut w = String::new();
+                    let mut x = i;
+                    for _ in 0..3 {
+                        w.push(alpha[x % 60]);
+                        x /= 60;
+                    }
+                    for j in 0..75 {
+                        w.push(alpha[(i + j) % 60]);
+                    }
+                    w
+                })
+                .collect();
+            tc.cfg.bucket = 4;
+            ctx.count("cases_with_large_dictionary", 1);
+        }
         ctx.count(&format!("corpus_class_{}", tc.class), 1);
         ctx.count(&format!("solver_{}", tc.solver), 1);
         ctx.flag("configs_with_type_window_gt_char_window", tc.cfg.type_w > tc.cfg.char_w);
